@@ -369,6 +369,16 @@ SOLO_COMPOSITES = [
     L("ref_named_like_native_ip", {"$ref": "#/definitions/IpAddr"}, defs={"IpAddr": {"type": "string", "format": "ip"}}, strish=True),
     L("ref_named_like_native_u8", {"$ref": "#/definitions/U8"}, defs={"U8": {"type": "integer", "format": "uint8", "minimum": 0}}),
     L("ref_named_like_native_string", {"$ref": "#/definitions/String"}, defs={"String": {"type": "string"}}, strish=True),
+    # an object whose anyOf alternatives partly repeat the body (they merge to the SAME schema): the surviving alternatives must keep document order
+    L("obj_anyof_redundant", {"type": "object", "properties": {"name": STR, "legs": INT, "wings": INT}, "required": ["name"],
+                              "anyOf": [{"properties": {"name": STR}}, {"properties": {"legs": INT}}, {"required": ["legs"]}, {"required": ["wings"]}]}, ff=False, enf=False, sup=False),
+    L("obj_oneof_redundant", {"type": "object", "properties": {"a": INT, "b": INT}, "oneOf": [{"required": ["a"]}, {"properties": {"a": INT}}, {"required": ["b"]}, {"properties": {"b": INT}}]},
+      ff=False, enf=False, sup=False),
+    # tag + content where the content member is NOT required in one branch (serde's adjacent tagging always writes the content key)
+    L("adj_like_optional_content", {"oneOf": [obj({"kind": {"type": "string", "enum": ["resize"]}, "data": INT}, ["kind"]),
+                                              obj({"kind": {"type": "string", "enum": ["move"]}, "data": STR}, ["kind", "data"])]}, enf=True),
+    L("adj_like_all_optional_content", {"oneOf": [obj({"kind": {"type": "string", "enum": ["resize"]}, "data": INT}, ["kind"]),
+                                                  obj({"kind": {"type": "string", "enum": ["move"]}, "data": STR}, ["kind"])]}, enf=True),
     # boolean schemas as union operands (generators write `true` for "anything" and `false` for a removed alternative)
     L("anyof_true_str", {"anyOf": [True, STR]}, ff=False, enf=False, sup=False),
     L("anyof_false_str", {"anyOf": [False, STR]}, ff=False, enf=False, sup=False, strish=True),
@@ -598,7 +608,7 @@ UNION_OPERANDS = {
     "enum_int_typed": {"type": "integer", "enum": [1, 2]}, "deny_str": {"not": {"type": "string", "enum": ["all", "none"]}},
     "allof_str": {"allOf": [{"type": "string"}, {"maxLength": 3}]},
 }   # ({"const": "a"} is not an operand: typify documents that it ignores const, so every union with it is non-exclusive by construction)
-UNION_QUICK = ["null", "int", "str", "enum_ab", "vec_int", "arr13_str", "arr13_int", "tuple_is", "obj_p", "ref_str", "enum_int_untyped", "str_or_null", "int_or_null", "num", "deny_str", "ref_enum", "ref_enum2"]
+UNION_QUICK = ["null", "int", "str", "enum_ab", "vec_int", "arr13_str", "arr13_int", "tuple_is", "obj_p", "ref_str", "enum_int_untyped", "str_or_null", "int_or_null", "int_or_bool", "num", "deny_str", "ref_enum", "ref_enum2"]
 _UNION_DEFS = {"XObj": obj({"s": STR, "n": INT}, ["s"]), "XLabel": {"type": "string"}, "XKind": {"type": "string", "enum": ["k1", "k2"]},
                "XMode": {"type": "string", "enum": ["m1", "m2"]}}
 _JTYPE = {"null": "null", "bool": "boolean", "int": "number", "num": "number", "str": "string", "str_max2": "string", "enum_ab": "string",
